@@ -603,7 +603,7 @@ def weave(fn_text, spec=None, hints=()):
                 raise SliceError("start anchor: code on the line of the opening brace")
             inserts.append((p, _mark_lines(text, "        "), 'h'))
         elif kind == 'end':
-            # after last ';' or '}' statement end at body depth, i.e. before tail expr
+            # after the last top-level statement, i.e. before the tail expression (if any)
             d = 0
             last = None
             for j in range(body_open + 1, body_close):
@@ -613,19 +613,21 @@ def weave(fn_text, spec=None, hints=()):
                 elif x.kind == 'op' and x.text in CLOSE:
                     d -= 1
                     if d == 0 and x.text == '}':
-                        # block statement end only if next token starts a new stmt
-                        last_blk = j
+                        nx = toks[j + 1].text if j + 1 < body_close else None
+                        if nx is None:
+                            # block is the tail of the body: is it a statement (for/while/loop) or a value?
+                            pass
+                        elif nx not in (';', '.', '?', 'else', ')', ',', '+', '-', '*', '/', '&', '|', '^', '==', '!=', '<', '>', '<=', '>=', '&&', '||', 'as'):
+                            last = j
                 elif x.kind == 'op' and x.text == ';' and d == 0:
                     last = j
-            # choose insertion: after the last top-level ';' line
             if last is None:
                 p = after_line_end(toks[body_open].end)
             else:
                 p = after_line_end(toks[last].end)
-            # if a block statement (for/while/if) follows the last ';', and the
-            # fn has no tail expression, go before the closing brace instead
             tail = fn_text[p:toks[body_close].start].strip()
-            if tail and (tail.startswith('for ') or tail.startswith('while ') or tail.startswith('if ') or tail.startswith('loop')) and tail.endswith('}'):
+            if tail and re.match(r'^(for|while|loop)\b', tail) and tail.endswith('}'):
+                # body ends with a loop statement and no tail expression
                 p = line_start(toks[body_close].start)
             inserts.append((p, _mark_lines(text, "        "), 'h'))
         elif kind == 'let':
